@@ -149,6 +149,33 @@ Theorem c17_resume_on_replica : forall cfg opsA opsB from k fuel,
 Proof. exact resume_on_replica. Qed.
 Print Assumptions c17_resume_on_replica.
 
+(* Reads in chunks.  If ReadNextNotifications enforces a limit - at most [limit] >= 1 batches per call, the first
+   [limit] of the scan - the dispatch loop started at ANY offset [from] (whatever was trimmed in front of it, whatever
+   offsets carry no batch) still delivers exactly the stored batches above [from], in offset order, each once, and then
+   waits (DSpin: nothing is left above its offset).  [retained h] = the logged batches at or above the trimming mark,
+   which are exactly the stored ones (third conjunct). *)
+Theorem c17_chunked_reads_cover_everything : forall cfg ops limit fuel from,
+  ops_user ops -> ops_small ops -> (1 <= limit)%nat -> -1 <= from < TWO62 ->
+  let h := hrun cfg ops in
+  (length (above from (retained h)) + 2 <= fuel)%nat ->
+  fst (dispatch_limited fuel limit (h_st h) from) = above from (retained h) /\
+  StronglySorted off_lt (above from (retained h)) /\
+  (forall b, In b (h_log h) -> (In b (above from (retained h)) <-> from < nb_offset b /\ stored_batch (h_st h) (nb_offset b) = Some b)) /\
+  exists o, snd (dispatch_limited fuel limit (h_st h) from) = DWait o \/ snd (dispatch_limited fuel limit (h_st h) from) = DSpin o.
+Proof. exact chunked_reads_reachable. Qed.
+Print Assumptions c17_chunked_reads_cover_everything.
+
+(* Limiting the scan to a window of OFFSETS (start .. start+window-1) instead is not such an enforcement: behind a
+   trimmed run at least as long as the window the read returns nothing although a batch above is stored, and the loop
+   asks for the same window again (seeded change r7; harness verdict notif:committed-batch-not-delivered). *)
+Theorem c17_offset_window_read_refuted :
+  exists cfg ops window from,
+    ops_user ops /\ ops_small ops /\ -1 <= from /\ 1 <= window /\
+    read_next_window window (h_st (hrun cfg ops)) (from + 1) = Ok [] /\
+    above from (retained (hrun cfg ops)) <> [].
+Proof. exact offset_window_read_refuted. Qed.
+Print Assumptions c17_offset_window_read_refuted.
+
 (* The same through the client's own resume logic (oxia/notifications.go after the repair of O-17): first
    connection = dummy batch at [qc1] (the leader's commit offset, -1 on an empty shard) + [k1] batches, the
    stream breaks, second connection to the same or a later store: what is handed to the application is a
